@@ -813,7 +813,22 @@ def _judge_query(kind, arg, answer, probes, static_we):
     if kind in ("weout", "wein"):
         check_lower = static_we        # membership of the far ends moves when webentities are created: set-level bound only if none was
     if check_lower and not lower <= set(got):
-        hits.append((miss_words, {"missing": sorted(map(str, lower - set(got)))[:3]}))
+        missing = lower - set(got)
+        reclass = set()
+        if kind == "pagelinks" and arg.get("cls"):
+            # a missed link that the single-switch probes show under different classes while the query ran (F16c)
+            for k_ in missing:
+                seen = set()
+                for cin, cint, cout in arg["cls"]:
+                    names = [n for n, c in (("in", cin), ("int", cint), ("out", cout)) if any(x.rsplit(":", 1)[0] == k_ for x in c)]
+                    seen.add(tuple(names))
+                if len(seen) > 1:
+                    reclass.add(k_)
+        if reclass:
+            known.append(("page-link query misses a link that changed class (internal / inbound / outbound) while the query ran: it qualified "
+                          "at every moment under the switches asked for", {"missing": sorted(map(str, reclass))[:3]}))
+        if missing - reclass:
+            hits.append((miss_words, {"missing": sorted(map(str, missing - reclass))[:3]}))
     if not set(got) <= upper:
         if phantom_words is None:
             hits.append(("child-webentity query reports a webentity that lay below the prefixes at no moment of its execution",
@@ -870,6 +885,11 @@ def extra_C16(tier, seed, scratch, cfg, out):
                 for cid, st in live.items():
                     if st["answer"] is None and st["kind"] in QUERY_KINDS:
                         st["probes"].append(ses.do(_probe_line(st["kind"], st["arg"])))
+                        if st["kind"] == "pagelinks":
+                            # the class of every link at this moment (inbound / internal / outbound): F16c is about links that change class
+                            a_ = st["arg"]
+                            st["arg"].setdefault("cls", []).append(tuple(
+                                frozenset(_items(ses.do("? pagelinks %d %s %s" % (a_["w"], a_["ps"], fl)))) for fl in ("1 0 0", "0 1 0", "0 0 1")))
             for kind, _, _ in reqs:
                 req_count[kind] = req_count.get(kind, 0) + 1
             we_before = ses.do("? prefixiter")
@@ -957,8 +977,9 @@ def extra_C16(tier, seed, scratch, cfg, out):
                 # F16 is the phantom the executable model of the unchanged generators reproduces on the same schedule; a
                 # phantom on a schedule where the implementation has left the model is a different violation
                 h = scen_known[0]
-                h["finding"]["reason"] = ("a query advanced in turns reports an item that qualified at no moment of its execution, and not by the "
-                                          "known mechanism: the model of the unchanged generators disagrees on this schedule (%s)" % mism[0].what)
+                h["finding"]["reason"] = ("a query advanced in turns reports an item that qualified at no moment of its execution (or misses one that "
+                                          "qualified throughout), and not by a known mechanism: the model of the unchanged generators disagrees on this "
+                                          "schedule (%s)" % mism[0].what)
                 hits.append(h)
                 break
             if mism:
